@@ -5,7 +5,7 @@
 From Coq Require Import List ZArith Bool Sorting.Sorted Sorting.Permutation.
 From GL Require Import Lib.Arr Lib.Keyed Lib.Blocks Model.Dom Model.Scalar Model.Reduce Model.GroupByApi
   Spec.Defs Spec.Exec Proofs.ReduceSeries Proofs.ReduceBlocks Proofs.ReduceWrap Proofs.ReduceSpec Proofs.ApiProofs
-  Proofs.GenTie Proofs.TieMoments Gen.ScalarFuncsGen Model.Moments Proofs.ContainerProofs Proofs.MomentsProofs.
+  Proofs.GenTie Proofs.TieMeanFormula Gen.ScalarFuncsGen Model.Moments Proofs.ContainerProofs Proofs.MomentsProofs.
 Import ListNotations.
 Open Scope Z_scope.
 
@@ -118,8 +118,8 @@ Theorem C01_mean_of_ticks_needs_the_sum_in_range_refuted :
 Proof. exact mean_ticks_refuted. Qed.
 Print Assumptions C01_mean_of_ticks_needs_the_sum_in_range_refuted.
 
-Theorem C01_mean_formula_is_the_source's : Gen.TablesGen.gen_moment_formulas = moment_formulas.
-Proof. exact tie_moment_formulas. Qed.
+Theorem C01_mean_formula_is_the_source's : Gen.TablesGen.gen_mean_formula = mean_formula.
+Proof. exact tie_mean_formula. Qed.
 Print Assumptions C01_mean_formula_is_the_source's.
 
 (* Tie B (pins): the functions this property's models transcribe read, statement by statement, as they did when the models
